@@ -3,12 +3,12 @@ import SqlModel.Filters.FNode
 # SqlModel.Filters.Spaces — `SpacesAroundOperatorsFilter` and `StripTrailingSemicolonFilter`
 
 `_process` visits the children whose type **equals** `T.Operator` or `T.Operator.Comparison` (plain tuple) from left
-to right.  For each: if the next child exists and `next_.ttype != T.Whitespace` (inequality — a `Newline` token or a
-group counts as "not whitespace"), `insert_after(tidx, ' ')` puts a blank **before the next child that is not
-`is_whitespace`** (or at the end); if the previous child exists and its type `!= T.Whitespace`, a blank goes directly
-before the operator.  The model does this in one left-to-right pass: `pending` says that a blank is still owed
-before the first non-`is_whitespace` child (whitespace children passed meanwhile cannot be operators, so the real
-loop does not stop at them either), `prev` is `tokens[tidx-1]` of the list as modified so far.
+to right.  For each: if the next child exists and is not `is_whitespace`, `insert_after(tidx, ' ')` puts a blank directly
+after the operator (`insert_after` inserts before the next non-whitespace sibling, which here is the next child); if the
+previous child exists and is not `is_whitespace`, a blank goes directly before the operator.  (Before repo commit f036566
+the two tests were `ttype != T.Whitespace`, which treated a `Newline` token as "not whitespace" and made the filter
+non-idempotent; the model follows the source.)  The model does this in one left-to-right pass; `prev` is
+`tokens[tidx-1]` of the list as modified so far.
 -/
 namespace Sql
 
@@ -17,31 +17,26 @@ def wsTok : FNode := .tok T.Whitespace [32]
 /-- `imt(tk, t=(T.Operator, T.Comparison))` -/
 def isSpaceOp (n : FNode) : Bool := n.ttInArg Gen.spaceOpTTypes
 
-def spacesGo : Option FNode → Bool → List FNode → List FNode
-  | _, pending, [] => if pending then [wsTok] else []
-  | prev, pending, k :: rest =>
-    if pending && k.isWhitespace then k :: spacesGo (some k) true rest
-    else
-      let pre := if pending then [wsTok] else []
-      let prev' := if pending then some wsTok else prev
-      if isSpaceOp k then
-        let after := match rest with
-          | n :: _ => n.ttNe T.Whitespace
-          | [] => false
-        let before := match prev' with
-          | some p => p.ttNe T.Whitespace
-          | none => false
-        pre ++ (if before then [wsTok] else []) ++ k :: spacesGo (some k) after rest
-      else pre ++ k :: spacesGo (some k) false rest
+/-- `prev_ and not prev_.is_whitespace` / `next_ and not next_.is_whitespace` -/
+def needsBlank : Option FNode → Bool
+  | some p => !p.isWhitespace
+  | none => false
 
-/-- the one-pass formulation relies on it: no operator type is a whitespace type (so the children skipped while a
-blank is pending are never operators themselves) -/
+def spacesGo : Option FNode → List FNode → List FNode
+  | _, [] => []
+  | prev, k :: rest =>
+    if isSpaceOp k then
+      (if needsBlank prev then [wsTok] else []) ++
+        k :: (if needsBlank rest.head? then wsTok :: spacesGo (some wsTok) rest else spacesGo (some k) rest)
+    else k :: spacesGo (some k) rest
+
+/-- no operator type is a whitespace type (so an inserted or existing whitespace child is never an operator) -/
 theorem spaceOps_not_whitespace :
     (match Gen.spaceOpTTypes with
      | .exact tts => tts.all fun t => !t.isIn T.Whitespace
      | _ => false) = true := by decide
 
-def spacesLevel (ks : List FNode) : List FNode := spacesGo none false ks
+def spacesLevel (ks : List FNode) : List FNode := spacesGo none ks
 
 /-- `SpacesAroundOperatorsFilter().process(stmt)` -/
 def spacesAroundOperators (fuel : Nat) (stmt : FNode) : Except PyErr FNode :=
